@@ -284,11 +284,11 @@ func hasDirective(fd *ast.FuncDecl, d string) bool {
 }
 
 type fileWork struct {
-	pi    *pkgInfo
-	file  *ast.File
-	path  string
-	src   []byte
-	edits []edit
+	pi     *pkgInfo
+	file   *ast.File
+	path   string
+	src    []byte
+	edits  []edit
 	yields bool
 }
 
